@@ -555,7 +555,8 @@ def _scoping_block(rng, names):
     t1, t2, t3 = rng.sample([t for t in VIRT if t not in ("signal-W",) and t not in [n[1] for n in names]], 3)
     k = rng.randint(1, 4)
     out = []
-    kind = rng.choice(["localmem", "localmem", "param_proj", "returned_local", "free_names", "free_names", "mem_in_loop"])
+    kind = rng.choice(["localmem", "localmem", "param_proj", "returned_local", "free_names", "free_names", "mem_in_loop",
+                       "nested_entity", "nested_entity"])
     if kind == "localmem":
         out += ["func acc(Signal s, int k) {",
                 f'    Memory c: "{t1}";',
@@ -604,6 +605,30 @@ def _scoping_block(rng, names):
                 f"Signal o1 = outer({b0}, {rng.randint(5, 9)});",
                 f"Signal o2 = outer2({a0});",
                 "Signal o3 = base + K;"]
+    elif kind == "nested_entity":
+        # a callee's local entity (signal, memory) spelled like a local of the function that calls it
+        k1, k2 = rng.randint(100, 120), rng.randint(200, 230)
+        loop = rng.random() < 0.5
+        out += ["func inner_lamp(int x, Signal s) {",
+                '    Entity lamp = place("small-lamp", x, 16);',
+                f"    Signal t = s + {k2};",
+                f"    lamp.enable = t > {k2 + 2};",
+                "    return t;",
+                "}",
+                "func outer_lamp(Signal s) {",
+                '    Entity lamp = place("small-lamp", 0, 18);',
+                f"    Signal t = s * 2;"]
+        if loop:
+            out += ["    for j in 1..3 {",
+                    "        Signal u = inner_lamp(j * 2, s);",
+                    "    }",
+                    f"    lamp.enable = t > {k1};",
+                    "    return t + 1;"]
+        else:
+            out += ["    Signal u = inner_lamp(4, s);",
+                    f"    lamp.enable = (t + u) > {k1};",
+                    "    return t + u;"]
+        out += ["}", f"Signal nl = outer_lamp({a0});"]
     else:
         out += ["func acc(Signal s, int k) {",
                 f'    Memory c: "{t1}";',
@@ -686,11 +711,11 @@ def gen_functions(seed: int) -> str:
     return "\n".join(lines) + "\n"
 
 
-def _loop_scope_body(rng, head, names):
+def _loop_scope_body(rng, head, names, mid=0):
     """C16: names declared in the body are local to one iteration; bodies that declare memories or call functions"""
     x = names[0][0]
     tx = names[0][1]
-    kind = rng.choice(["shadow", "shadow", "memory", "memory_outer", "func_memory"])
+    kind = rng.choice(["shadow", "shadow", "memory", "memory_outer", "func_memory", "iter_values", "iter_values"])
     out = []
     if kind == "shadow":
         out += [f"Signal t = {x} + 1;", f"int k = {rng.randint(2, 6)};", 'Entity lamp = place("small-lamp", 0, 14);',
@@ -702,6 +727,26 @@ def _loop_scope_body(rng, head, names):
                 "}",
                 "Signal after = t + k;",
                 f"lamp.enable = {x} < 0;"]
+    elif kind == "iter_values":
+        # the iterator inside compile-time value positions: a signal literal's value, the value after ':', a bundle
+        # element. Thresholds sit in the middle of the iterated range so that the iterations must differ; no input is
+        # shared between same-typed values (F02 would blur the picture).
+        m1, m2 = rng.randint(2, 11), rng.randint(-5, 5)
+        m3 = rng.randint(2, 5)
+        out += [head + " {",
+                f'    Signal c = ("signal-A", i * {m1} + {m2});',
+                '    Entity lamp = place("small-lamp", i, 7);',
+                f"    lamp.enable = c > {mid * m1 + m2};",
+                f"    Signal g = ({x} > {rng.randint(-3, 3)}) : (i * {m3} - 1);",
+                '    Entity lamp2 = place("small-lamp", i, 9);',
+                f"    lamp2.enable = g > {mid * m3 - 1};",
+                f'    Bundle b = {{ ("signal-B", i * 2 + 1), ("signal-C", -i) }};',
+                '    Entity lamp3 = place("small-lamp", i, 11);',
+                f'    lamp3.enable = b["signal-B"] > {mid * 2 + 1};',
+                '    Entity lamp4 = place("small-lamp", i, 13);',
+                f'    lamp4.enable = b["signal-C"] > {-mid};',
+                "}",
+                f"Signal after = {x} + 1;"]
     elif kind == "memory":
         out += [head + " {",
                 f'    Memory m: "{tx}";',
@@ -751,7 +796,7 @@ def gen_loops(seed: int) -> str:
     else:
         head = f"for i in {a}..{b}" + (f" step {s}" if s else "")
     body_kind = rng.random()
-    if body_kind < 0.12:
+    if body_kind < 0.10:
         # an outer entity variable is re-bound by the body: every iteration configures the previous placement
         lines.append('Entity last = place("small-lamp", 0, 9);')
         lines.append(head + " {")
@@ -761,9 +806,10 @@ def gen_loops(seed: int) -> str:
         lines.append(f"last.enable = {x} > 99;")
         lines.append(f"Signal after = {x} + 1;")
         return "\n".join(lines) + "\n"
-    if body_kind < 0.27:
-        return "\n".join(lines + _loop_scope_body(rng, head, names)) + "\n"
-    if body_kind < 0.35:
+    if body_kind < 0.40:
+        mid = (sorted(vals)[len(vals) // 2] if vals else 0) if form < 0.25 else (a + b) // 2
+        return "\n".join(lines + _loop_scope_body(rng, head, names, mid)) + "\n"
+    if body_kind < 0.47:
         lines.append("func scaled(Signal s, int k) {")
         lines.append("    return s * k;")
         lines.append("}")
@@ -774,10 +820,10 @@ def gen_loops(seed: int) -> str:
         lines.append(f"Signal after = {x} + 1;")
         return "\n".join(lines) + "\n"
     lines.append(head + " {")
-    if body_kind < 0.6:
+    if body_kind < 0.7:
         lines.append(f'    Entity lamp = place("small-lamp", i, {rng.randint(0, 3)});')
         lines.append(f"    lamp.enable = {x} {rng.choice(CMP)} i;")
-    elif body_kind < 0.8:
+    elif body_kind < 0.85:
         lines.append(f'    Entity lamp = place("small-lamp", i, 2);')
         lines.append(f"    Signal t = ({x} + i) * 2;")
         lines.append("    lamp.enable = t > 4;")
